@@ -9,16 +9,26 @@
 (* arbitrary other time from the candidate set (t0 of either leg exactly, and times around   *)
 (* them), because the conversion is applied to every time bin of a histogram, physical or    *)
 (* not.  Convert evaluates the documented kernel.                                            *)
-EXTENDS KinematicsInelDefs, TLC
+(*                                                                                          *)
+(* Second use (hardening round): after a conversion the same neutron energies are flown to   *)
+(* another detector bank (NextBank: other L1, L2; up to MaxBanks banks) and converted again  *)
+(* with the same supplied energy.  `memo` records the t0 of the first conversion per         *)
+(* (geometry, supplied energy); a correct conversion never looks at it.  Negative control    *)
+(* Bug = "stale_t0": the kernel reuses the remembered t0 for an energy it has seen, although  *)
+(* t0 is proportional to the length of the leg (T0Linear).                                   *)
+EXTENDS KinematicsInelDefs, Sequences, TLC
 
 CONSTANTS Speeds,     \* set of positive rationals <<n, d>>
           Lengths,    \* set of positive integers
           Deltas,     \* set of positive rationals: offsets around t0 for unphysical records
-          Bug,        \* "none" | "lt"
-          Emit
+          Bug,        \* "none" | "lt" | "stale_t0"
+          Emit,
+          MaxBanks    \* number of detector banks one neutron energy pair is flown to (>= 1)
 
-VARIABLES vi, vf, L1, L2, phase, clock, trec, mode, res
-vars == <<vi, vf, L1, L2, phase, clock, trec, mode, res>>
+VARIABLES vi, vf, L1, L2, phase, clock, trec, mode, res,
+          bank,       \* number of the current detector bank (1..MaxBanks)
+          memo        \* sequence of <<geometry, supplied energy, t0>> of first conversions
+vars == <<vi, vf, L1, L2, phase, clock, trec, mode, res, bank, memo>>
 
 Ei == EnergyOf(vi)
 Ef == EnergyOf(vf)
@@ -28,15 +38,16 @@ T0i == T0(L2, Ef)      \* ... indirect geometry
 Init == /\ vi \in Speeds /\ vf \in Speeds /\ L1 \in Lengths /\ L2 \in Lengths
         /\ phase = "source" /\ clock = <<0, 1>> /\ trec = <<0, 1>>
         /\ mode = "none" /\ res = [cls |-> "none", val |-> NoVal]
+        /\ bank = 1 /\ memo = <<>>
 
 FlyPrimary   == /\ phase = "source"    /\ phase' = "sample"
                 /\ clock' = RAdd(clock, RDiv(RInt(L1), vi))
-                /\ UNCHANGED <<vi, vf, L1, L2, trec, mode, res>>
+                /\ UNCHANGED <<vi, vf, L1, L2, trec, mode, res, bank, memo>>
 Scatter      == /\ phase = "sample"    /\ phase' = "scattered"
-                /\ UNCHANGED <<vi, vf, L1, L2, clock, trec, mode, res>>
+                /\ UNCHANGED <<vi, vf, L1, L2, clock, trec, mode, res, bank, memo>>
 FlySecondary == /\ phase = "scattered" /\ phase' = "detector"
                 /\ clock' = RAdd(clock, RDiv(RInt(L2), vf))
-                /\ UNCHANGED <<vi, vf, L1, L2, trec, mode, res>>
+                /\ UNCHANGED <<vi, vf, L1, L2, trec, mode, res, bank, memo>>
 
 Candidates == {clock, T0d, T0i}
               \cup { RAdd(b, d) : b \in {T0d, T0i}, d \in Deltas }
@@ -44,21 +55,36 @@ Candidates == {clock, T0d, T0i}
 Record(tr) == /\ phase = "detector" /\ phase' = "recorded"
               /\ RSign(tr) >= 0
               /\ trec' = tr
-              /\ UNCHANGED <<vi, vf, L1, L2, clock, mode, res>>
+              /\ UNCHANGED <<vi, vf, L1, L2, clock, mode, res, bank, memo>>
+Remembered(m, E) == { i \in 1..Len(memo) : memo[i][1] = m /\ memo[i][2] = E }
 Convert(m) == /\ phase = "recorded" /\ phase' = "converted"
               /\ mode' = m
-              /\ res' = Kernel(m, trec, L1, L2, IF m = "direct" THEN Ei ELSE Ef, Bug)
-              /\ UNCHANGED <<vi, vf, L1, L2, clock, trec>>
+              /\ LET E    == IF m = "direct" THEN Ei ELSE Ef
+                     t0   == T0(Lfix(m, L1, L2), E)
+                     used == IF Bug = "stale_t0" /\ Remembered(m, E) # {}
+                             THEN memo[CHOOSE i \in Remembered(m, E) : TRUE][3] ELSE t0
+                 IN /\ res' = KernelWith(m, trec, L1, L2, E, used, Bug)
+                    /\ memo' = IF Remembered(m, E) = {} THEN Append(memo, <<m, E, t0>>) ELSE memo
+              /\ UNCHANGED <<vi, vf, L1, L2, clock, trec, bank>>
+(* the same pair of neutron energies, another detector bank: the instrument keeps its supplied energy *)
+NextBank(l1, l2) == /\ phase = "converted" /\ trec = clock /\ bank < MaxBanks
+                    /\ <<l1, l2>> # <<L1, L2>>
+                    /\ L1' = l1 /\ L2' = l2 /\ bank' = bank + 1
+                    /\ phase' = "source" /\ clock' = <<0, 1>> /\ trec' = <<0, 1>>
+                    /\ mode' = "none" /\ res' = [cls |-> "none", val |-> NoVal]
+                    /\ UNCHANGED <<vi, vf, memo>>
 
 Next == \/ FlyPrimary \/ Scatter \/ FlySecondary
         \/ \E tr \in Candidates : Record(tr)
         \/ \E m \in {"direct", "indirect"} : Convert(m)
+        \/ \E l1, l2 \in Lengths : NextBank(l1, l2)
 Spec == Init /\ [][Next]_vars
 
 -----------------------------------------------------------------------------
 TypeOK == /\ T0d # NotSquare /\ T0i # NotSquare
           /\ phase \in {"source", "sample", "scattered", "detector", "recorded", "converted"}
           /\ res.cls \in {"none", "nan", "num", "inf"}
+          /\ bank \in 1..MaxBanks /\ Len(memo) <= 2 * MaxBanks
 
 (* the clock at the detector is exactly L1/v(Ei) + L2/v(Ef), later than either t0 *)
 ArrivalAfterT0 == phase \in {"detector", "recorded", "converted"} =>
@@ -80,6 +106,13 @@ ClassAbstraction ==
             side == IF sg < 0 THEN "below" ELSE IF sg = 0 THEN "at" ELSE "above"
         IN res.cls \in AllowedClasses(side) /\ res.cls \in AllowedClasses("band") \cup {"nan"}
 
+(* t0 of a leg is proportional to its length and does not depend on the other leg: what an     *)
+(* implementation may remember about a supplied energy is t0 / L, never t0 itself                *)
+T0Linear == /\ T0d = RMul(RInt(L1), T0(1, Ei))
+            /\ T0i = RMul(RInt(L2), T0(1, Ef))
+
+(* every flight with its exact energy transfer and its exact arrival time: flights that reach     *)
+(* different pixels at the same time are converted by one call with a shared time axis            *)
 EmitFlight == (Emit /\ phase = "converted" /\ trec = clock) =>
-                 PrintT(<<"FLIGHT", vi, vf, L1, L2, mode, res.val>>)
+                 PrintT(<<"FLIGHT", vi, vf, L1, L2, mode, res.val, clock>>)
 =============================================================================
